@@ -57,7 +57,11 @@ Gen<std::string> gWeight(bool exact, bool nonneg = false) {
     });
 }
 
-Gen<int> gMult() { return wel({{2, 0}, {5, 1}, {4, 2}, {3, 3}, {1, 7}, {1, 1000}}); }
+// multiplicities: small values dominate; a few are so large that the sum over a handful of edges exceeds 2^32
+// (getTotalEdgeNumber and the degrees are size_t; the executor skips an op that would push ONE pair beyond UINT_MAX)
+Gen<long long> gMult() {
+    return gen::resize(kNominalSize, gen::weightedElement<long long>({{4, 0}, {10, 1}, {8, 2}, {6, 3}, {2, 7}, {2, 1000}, {1, 2147483648LL}, {1, 4000000000LL}}));
+}
 
 struct HistCfg {
     char fam;       // L, M, W
@@ -76,7 +80,7 @@ Gen<Op> gOpOfKind(const std::string &kind, const HistCfg &h) {
                                 return mkOp("add", {S(std::get<0>(t)), S(std::get<1>(t)), S(std::get<2>(t)), std::get<3>(t), S(std::get<4>(t))});
                             });
         if (h.fam == 'M')
-            return gen::map(gen::tuple(gVtx(), gVtx(), gMode(), gMult(), force), [](const std::tuple<int, int, int, int, int> &t) {
+            return gen::map(gen::tuple(gVtx(), gVtx(), gMode(), gMult(), force), [](const std::tuple<int, int, int, long long, int> &t) {
                 return mkOp("add", {S(std::get<0>(t)), S(std::get<1>(t)), S(std::get<2>(t)), S(std::get<3>(t)), S(std::get<4>(t))});
             });
         // L: bit1 of the flags selects the overload without label
@@ -92,7 +96,7 @@ Gen<Op> gOpOfKind(const std::string &kind, const HistCfg &h) {
         });
     if (kind == "recip" || kind == "recip1") {
         if (h.fam == 'M')
-            return gen::map(gen::tuple(gVtx(), gVtx(), gMode(), gMult()), [kind](const std::tuple<int, int, int, int> &t) {
+            return gen::map(gen::tuple(gVtx(), gVtx(), gMode(), gMult()), [kind](const std::tuple<int, int, int, long long> &t) {
                 return mkOp(kind, {S(std::get<0>(t)), S(std::get<1>(t)), S(std::get<2>(t)), S(std::get<3>(t)), "0"});
             });
         return gen::map(gen::tuple(gVtx(), gVtx(), gMode(), uni(0, 12), wel({{3, 0}, {1, 2}})),
@@ -105,11 +109,11 @@ Gen<Op> gOpOfKind(const std::string &kind, const HistCfg &h) {
             return mkOp("rm", {S(std::get<0>(t)), S(std::get<1>(t)), S(std::get<2>(t))});
         });
     if (kind == "rmk")
-        return gen::map(gen::tuple(gVtx(), gVtx(), gMode(), gMult()), [](const std::tuple<int, int, int, int> &t) {
+        return gen::map(gen::tuple(gVtx(), gVtx(), gMode(), gMult()), [](const std::tuple<int, int, int, long long> &t) {
             return mkOp("rmk", {S(std::get<0>(t)), S(std::get<1>(t)), S(std::get<2>(t)), S(std::get<3>(t))});
         });
     if (kind == "setm")
-        return gen::map(gen::tuple(gVtx(), gVtx(), gMode(), gMult()), [](const std::tuple<int, int, int, int> &t) {
+        return gen::map(gen::tuple(gVtx(), gVtx(), gMode(), gMult()), [](const std::tuple<int, int, int, long long> &t) {
             return mkOp("setm", {S(std::get<0>(t)), S(std::get<1>(t)), S(std::get<2>(t)), S(std::get<3>(t))});
         });
     if (kind == "setw")
@@ -157,6 +161,7 @@ Gen<Case> makeHistGen(const Cfg &cfg) {
     std::string mode = cfgGet(cfg, "mode", "exact");
     std::string fin = cfgGet(cfg, "final", "");
     bool pairvalues = cfgInt(cfg, "pairvalues", 0) != 0;
+    bool bigmult = cfgInt(cfg, "bigmult", 0) != 0;
     std::string labelsets = cfgGet(cfg, "labelsets", "");
     int zeroPct = (int)cfgInt(cfg, "zero_pct", 0);
 
@@ -192,6 +197,8 @@ Gen<Case> makeHistGen(const Cfg &cfg) {
             c.set("mode", h.exact ? "exact" : "rounded");
         if (pairvalues)
             c.set("pairvalues", "1");
+        if (bigmult && h.fam == 'M')
+            c.set("bigmult", "1");
         if (!labelsets.empty())
             c.set("labelsets", labelsets);
         c.set("n0", S(*uni(0, 100) < zeroPct ? 0 : *gN0()));
